@@ -472,9 +472,17 @@ func ruleS17_2(c *Ctx, id string) {
 				if fw.Field != "Size" || fw.Type.Obj().Name() != "Inode" {
 					continue
 				}
-				form := sym(&symCtx{recv: w.Params[0]}, fw.Val, sc.S, 0)
 				want1 := fmt.Sprintf("(+ param:%s param:%s)", w.Params[3].Name(), w.Params[2].Name())
 				want2 := fmt.Sprintf("(+ param:%s param:%s)", w.Params[2].Name(), w.Params[3].Name())
+				// the value may be a result of a private helper ("end, ok := writeExtent(...)"): what the helper returns
+				// there, its constant "refused" answers aside
+				form := ""
+				for _, hv := range helperResultValues(fw.Val, sc.S, 0) {
+					f := sym(&symCtx{recv: w.Params[0]}, hv.v, hv.sub, 0)
+					if form == "" || (f != want1 && f != want2) {
+						form = f
+					}
+				}
 				R.Check(form == want1 || form == want2, id, "simple.Write|new size is offset+count", P.Pos(fw.Instr.Pos()), "the size recorded after a growing write is offset + count", form, "the size stored is "+form+": a write that straddles the old end makes the file longer than what was written (bytes nobody wrote become readable, holes in the phantom range are accepted)")
 			}
 		}
@@ -532,35 +540,41 @@ func ruleS17_2(c *Ctx, id string) {
 				}
 			}
 		}
-		// end-of-file is told by where the read ended: offset + <bytes copied> >= Size (or the negation of <)
+		// end-of-file is told by where the read ended: offset + <bytes copied> >= Size (or the negation of <); the
+		// computation may sit in a private helper that is handed the size and the offset
 		{
-			okEof, nE := true, 0
-			var clampPhi ssa.Value
-			for _, sc := range scopesOf(rd) {
+			rdScopes := scopesOf(rd)
+			clampPhis := map[ssa.Value]bool{}
+			for _, sc := range rdScopes {
 				for _, b := range sc.Fn.Blocks {
 					for _, in := range b.Instrs {
 						if phi, ok := in.(*ssa.Phi); ok && clampSelected(sc, phi, rd.Params[3], offset, rd.Params[0]) {
-							clampPhi = phi
+							clampPhis[phi] = true
 						}
 					}
 				}
 			}
-			isEnd := func(v ssa.Value) bool { // offset + count (clamped)
+			isEnd := func(v ssa.Value, sub Subst) bool { // offset + count (clamped)
 				bo, ok := stripConv(v).(*ssa.BinOp)
 				if !ok || bo.Op != token.ADD {
 					return false
 				}
-				x, y := stripConv(bo.X), stripConv(bo.Y)
-				return (x == offset && y == clampPhi) || (y == offset && x == clampPhi)
+				x, y := sub.resolve(stripConv(bo.X)), sub.resolve(stripConv(bo.Y))
+				return (x == offset && clampPhis[y]) || (y == offset && clampPhis[x])
 			}
-			isSize := func(v ssa.Value) bool {
-				_, fl, base, _ := loadedField(v)
-				return fl == "Size" && base == ssa.Value(rd.Params[0])
+			isSize := func(v ssa.Value, sub Subst) bool {
+				_, fl, base, _ := loadedFieldS(sub.resolve(stripConv(v)), sub)
+				return fl == "Size" && base != nil && sub.resolve(stripConv(base)) == ssa.Value(rd.Params[0])
 			}
-			var judge func(v ssa.Value, neg bool, d int) bool
-			judge = func(v ssa.Value, neg bool, d int) bool {
-				if d > 4 {
+			var judge func(v ssa.Value, sub Subst, neg bool, d int) bool
+			judge = func(v ssa.Value, sub Subst, neg bool, d int) bool {
+				if d > 6 {
 					return false
+				}
+				if pm, isP := v.(*ssa.Parameter); isP {
+					if a, ok := sub[pm]; ok {
+						v = a
+					}
 				}
 				switch x := v.(type) {
 				case *ssa.Const:
@@ -568,39 +582,76 @@ func ruleS17_2(c *Ctx, id string) {
 					return isb && bv != neg // a constant true: the "offset >= Size" early exit (checked by the bound)
 				case *ssa.UnOp:
 					if x.Op == token.NOT {
-						return judge(x.X, !neg, d+1)
+						return judge(x.X, sub, !neg, d+1)
 					}
 				case *ssa.Phi:
 					for _, e := range x.Edges {
-						if !judge(e, neg, d+1) {
+						if !judge(e, sub, neg, d+1) {
 							return false
 						}
 					}
 					return true
 				case *ssa.BinOp:
 					op, a, b := x.Op, x.X, x.Y
-					if isSize(a) && isEnd(b) {
+					if isSize(a, sub) && isEnd(b, sub) {
 						op, a, b = flipOp(op), b, a
 					}
-					if !isEnd(a) || !isSize(b) {
+					if !isEnd(a, sub) || !isSize(b, sub) {
 						return false
 					}
 					if neg {
 						op = negOp(op)
 					}
 					return op == token.GEQ
+				case *ssa.Extract, *ssa.Call:
+					// the flag is a result of a private helper: every value it returns there
+					var cl *ssa.Call
+					idx := 0
+					if ex, ok := x.(*ssa.Extract); ok {
+						cl, _ = ex.Tuple.(*ssa.Call)
+						idx = ex.Index
+					} else {
+						cl, _ = x.(*ssa.Call)
+					}
+					if cl == nil {
+						return false
+					}
+					h := cl.Call.StaticCallee()
+					if h == nil || !IsRepoFunc(h) || !isPrivateHelper(h) || h.Blocks == nil {
+						return false
+					}
+					hs := Subst{}
+					for k, a := range sub {
+						hs[k] = a
+					}
+					for i, pm := range h.Params {
+						if i < len(cl.Call.Args) {
+							hs[pm] = sub.resolve(cl.Call.Args[i])
+						}
+					}
+					n := 0
+					for _, hb := range h.Blocks {
+						if r, ok := hb.Instrs[len(hb.Instrs)-1].(*ssa.Return); ok && idx < len(r.Results) {
+							n++
+							if !judge(r.Results[idx], hs, neg, d+1) {
+								return false
+							}
+						}
+					}
+					return n > 0
 				}
 				return false
 			}
+			okEof, nE := true, 0
 			for _, b := range rd.Blocks {
 				if r, ok := b.Instrs[len(b.Instrs)-1].(*ssa.Return); ok && len(r.Results) == 2 {
 					nE++
-					if !judge(r.Results[1], false, 0) {
+					if !judge(r.Results[1], Subst{}, false, 0) {
 						okEof = false
 					}
 				}
 			}
-			R.Check(okEof && nE > 0 && clampPhi != nil, id, "simple.Read|eof is offset+count >= Size", P.Pos(rd.Pos()), "the end-of-file flag is true exactly when the read reached the file's size: offset + <bytes copied> >= Size (or the constant true of the 'offset >= Size' exit)", "form of every returned flag", "the eof flag is computed from something else (e.g. whether the count was cut short): a read that ends exactly at the end of the file reports that more follows, or one that stops inside reports the end")
+			R.Check(okEof && nE > 0 && len(clampPhis) > 0, id, "simple.Read|eof is offset+count >= Size", P.Pos(rd.Pos()), "the end-of-file flag is true exactly when the read reached the file's size: offset + <bytes copied> >= Size (or the constant true of the 'offset >= Size' exit)", "form of every returned flag", "the eof flag is computed from something else (e.g. whether the count was cut short): a read that ends exactly at the end of the file reports that more follows, or one that stops inside reports the end")
 		}
 		R.Check(clamp, id, "simple.Read|count clamped to Size-offset", P.Pos(cr.Pos()), "the number of bytes copied is min(count, Size-offset): the smaller one is chosen by comparing count with Size-offset", "clamp phi selected by count > Size-offset", "a large count reads beyond the file's size (other bytes of the block, or out of range)")
 	}
@@ -1063,4 +1114,54 @@ func resolveCaptured(v ssa.Value) ssa.Value {
 		}
 	}
 	return v
+}
+
+type subVal struct {
+	v   ssa.Value
+	sub Subst
+}
+
+// helperResultValues: v itself, or - when v is a result of a private helper -
+// the non-constant values the helper returns at that position (each with the
+// helper's parameters bound to the call's arguments).
+func helperResultValues(v ssa.Value, sub Subst, d int) []subVal {
+	x := stripConv(v)
+	var cl *ssa.Call
+	idx := 0
+	switch y := x.(type) {
+	case *ssa.Extract:
+		cl, _ = y.Tuple.(*ssa.Call)
+		idx = y.Index
+	case *ssa.Call:
+		cl = y
+	}
+	if cl == nil || d > 2 {
+		return []subVal{{v, sub}}
+	}
+	h := cl.Call.StaticCallee()
+	if h == nil || !IsRepoFunc(h) || !isPrivateHelper(h) || h.Blocks == nil {
+		return []subVal{{v, sub}}
+	}
+	hs := Subst{}
+	for k, a := range sub {
+		hs[k] = a
+	}
+	for i, pm := range h.Params {
+		if i < len(cl.Call.Args) {
+			hs[pm] = sub.resolve(cl.Call.Args[i])
+		}
+	}
+	var out []subVal
+	for _, b := range h.Blocks {
+		if r, ok := b.Instrs[len(b.Instrs)-1].(*ssa.Return); ok && idx < len(r.Results) {
+			if _, isC := r.Results[idx].(*ssa.Const); isC {
+				continue
+			}
+			out = append(out, helperResultValues(r.Results[idx], hs, d+1)...)
+		}
+	}
+	if len(out) == 0 {
+		return []subVal{{v, sub}}
+	}
+	return out
 }
